@@ -34,11 +34,12 @@ package zapcore
 //@   requires ce != nil ==> forall i int :: 0 <= i && i < len(ce.cores) ==> ce.cores[i] != nil
 //@   modifies $user, zapcore.CheckedEntry.cores, comp(E:zapcore.Core)
 //@   ensures ce != nil ==> result == ce
-//@   ensures ce == nil && result != nil ==> fresh(result) && result.Entry == ent
+//@   ensures ce == nil && result != nil ==> fresh(result) && result.Entry == ent && !result.dirty && result.after == nil
 //@   ensures result != nil ==> len(result.cores) >= (ce == nil ? 0 : old(len(ce.cores)))
 //@   ensures ce != nil ==> forall i int :: 0 <= i && i < old(len(ce.cores)) ==> result.cores[i] == old(ce.cores[i])
 //@   ensures result != nil ==> (ce != nil && arr(result.cores) == old(arr(ce.cores))) || arr(result.cores) == nil || fresh(result.cores)
 //@   ensures result != nil ==> forall i int :: 0 <= i && i < len(result.cores) ==> result.cores[i] != nil
+//@   ensures result != nil && arr(result.cores) == nil ==> len(result.cores) == 0
 //@   ensures elems_frame(type(zapcore.Core), ce == nil ? zero(type([]zapcore.Core)) : old(ce.cores))
 
 //@ iface zapcore.WriteSyncer.Write
@@ -409,7 +410,7 @@ package zapcore
 //@   loop 1 invariant forall k int :: 0 < k && k < $idx ==> CK.arg1[k] == CK.ret0[k - 1]
 //@   loop 1 invariant ce != nil ==> root(arr(ce.cores)) != root(arr(mc))
 //@   loop 1 invariant param(ce) != nil ==> ce == param(ce)
-//@   loop 1 invariant param(ce) == nil && ce != nil ==> fresh(ce) && ce.Entry == ent
+//@   loop 1 invariant param(ce) == nil && ce != nil ==> fresh(ce) && ce.Entry == ent && !ce.dirty && ce.after == nil
 //@   loop 1 invariant ce != nil ==> len(ce.cores) >= (param(ce) == nil ? 0 : old(len(param(ce).cores)))
 //@   loop 1 invariant param(ce) != nil ==> forall i int :: 0 <= i && i < old(len(param(ce).cores)) ==> ce.cores[i] == old(param(ce).cores[i])
 //@   loop 1 invariant ce != nil ==> (param(ce) != nil && arr(ce.cores) == old(arr(param(ce).cores))) || arr(ce.cores) == nil || fresh(ce.cores)
@@ -543,3 +544,92 @@ package zapcore
 
 //@ iface zapcore.Clock.Now
 //@   modifies $user
+
+// ---------------------------------------------------------------------------
+// entry.go: terminal actions and CheckedEntry.Write (C06, C10, C04)
+
+// "panics" below covers every way of not returning normally (panic, Goexit).
+//@ func (zapcore.CheckWriteAction).OnWrite
+//@   props C06
+//@   flags propagates-panics
+//@   requires ce != nil && exit._exit != nil
+//@   track EX = call internal/exit.With
+//@   panics a == WriteThenPanic || a == WriteThenGoexit
+//@   ensures a == WriteThenFatal ==> #EX == 1 && EX.arg0[0] == 1
+//@   ensures a != WriteThenFatal ==> #EX == 0
+
+// A user-supplied hook may do anything, including not returning.
+//@ iface zapcore.CheckWriteHook.OnWrite
+//@   flags maypanic
+//@   modifies $user
+
+//@ iface zapcore.Core.Write
+//@   modifies $user
+
+//@ iface zapcore.Core.Sync
+//@   modifies $user
+
+//@ func zapcore.putCheckedEntry
+//@   props C08
+//@   flags nopanic
+//@   modifies nothing
+
+// CheckedEntry.Write: every core of the entry is written exactly once, in order, whatever the
+// earlier ones returned; their errors are combined and reported on ErrorOutput; then - and only
+// then - the terminal hook runs.
+//@ func (*zapcore.CheckedEntry).Write
+//@   props C06 C10 C04
+//@   flags nopanic propagates-panics
+//@   requires ce != nil ==> forall i int :: 0 <= i && i < len(ce.cores) ==> ce.cores[i] != nil
+//@   track W = invoke zapcore.Core.Write
+//@   track H = invoke zapcore.CheckWriteHook.OnWrite
+//@   track EOS = invoke zapcore.WriteSyncer.Sync
+//@   assert at call 1 of zapcore.CheckWriteHook.OnWrite : #W == len(old(ce.cores)) && #H == 0 && (forall k int :: 0 <= k && k < #W ==> W.recv[k] == old(ce.cores[k]) && W.arg0[k] == old(ce.Entry) && W.arg1[k] == fields)
+//@   ensures ce == nil ==> #W == 0 && #H == 0
+//@   ensures ce != nil && old(ce.dirty) ==> #W == 0 && #H == 0
+//@   ensures ce != nil && !old(ce.dirty) ==> #W == len(old(ce.cores)) && (forall k int :: 0 <= k && k < #W ==> W.recv[k] == old(ce.cores[k]) && W.arg0[k] == old(ce.Entry) && W.arg1[k] == fields)
+//@   ensures ce != nil && !old(ce.dirty) ==> (old(ce.after) != nil <==> #H == 1) && #H <= 1
+//@   ensures #H == 1 ==> H.recv[0] == old(ce.after) && H.arg0[0] == ce && H.arg1[0] == fields && (#W > 0 ==> W.ts[#W - 1] < H.ts[0])
+//@   ensures ce != nil && !old(ce.dirty) && errFold(W.ret0, #W) != nil && old(ce.ErrorOutput) != nil ==> #EOS == 1 && EOS.recv[0] == old(ce.ErrorOutput)
+//@   ensures ce != nil && !old(ce.dirty) && (errFold(W.ret0, #W) == nil || old(ce.ErrorOutput) == nil) ==> #EOS == 0
+//@   loop 1 invariant 0 <= $idx && $idx <= len(ce.cores) && #W == $idx && #H == 0 && #EOS == 0 && ce.cores == old(ce.cores) && ce.Entry == old(ce.Entry) && ce.after == old(ce.after) && ce.ErrorOutput == old(ce.ErrorOutput)
+//@   loop 1 invariant forall k int :: 0 <= k && k < len(ce.cores) ==> ce.cores[k] == old(ce.cores[k])
+//@   loop 1 invariant forall k int :: 0 <= k && k < $idx ==> W.recv[k] == old(ce.cores[k]) && W.arg0[k] == old(ce.Entry) && W.arg1[k] == fields
+//@   loop 1 invariant err == errFold(W.ret0, $idx)
+//@   loop 1 invariant forall k int :: 0 <= k && k < $idx ==> W.ts[k] < clk()
+
+// ---------------------------------------------------------------------------
+// core.go: ioCore.Write / Sync (C04, C06, C10, C08)
+
+// Encoder.EncodeEntry hands a buffer it no longer references to the caller (or an error).
+//@ iface zapcore.Encoder.EncodeEntry
+//@   modifies $user, comp(E:uint8), buffer.Buffer.bs
+//@   ensures result.1 == nil ==> result.0 != nil && result.0.pool.p != nil
+//@   ensures result.1 != nil ==> result.0 == nil
+
+//@ func (*zapcore.ioCore).Sync
+//@   props C06 C10
+//@   refines zapcore.Core.Sync
+//@   flags nopanic
+//@   requires c != nil && c.out != nil
+//@   track SY = invoke zapcore.WriteSyncer.Sync
+//@   modifies $user
+//@   ensures #SY == 1 && SY.recv[0] == old(c.out) && result == SY.ret0[0]
+
+// One Write call per entry carrying the whole encoded line; the buffer is freed only after the
+// sink write returned; entries above Error are synced before control returns.
+//@ func (*zapcore.ioCore).Write
+//@   props C04 C06 C10 C08
+//@   refines zapcore.Core.Write
+//@   flags nopanic
+//@   requires c != nil && c.enc != nil && c.out != nil
+//@   track ENC = invoke zapcore.Encoder.EncodeEntry
+//@   track WR = invoke zapcore.WriteSyncer.Write
+//@   track SY = call (*zapcore.ioCore).Sync
+//@   track BY = call (*buffer.Buffer).Bytes
+//@   track FR = call (*buffer.Buffer).Free
+//@   ensures #ENC == 1 && ENC.recv[0] == old(c.enc) && ENC.arg0[0] == ent && ENC.arg1[0] == fields
+//@   ensures ENC.ret1[0] != nil ==> result == ENC.ret1[0] && #WR == 0 && #SY == 0 && #FR == 0
+//@   ensures ENC.ret1[0] == nil ==> #WR == 1 && WR.recv[0] == old(c.out) && #BY == 1 && BY.recv[0] == ENC.ret0[0] && WR.arg0[0] == BY.ret0[0] && #FR == 1 && FR.recv[0] == ENC.ret0[0] && WR.ts[0] < FR.ts[0]
+//@   ensures ENC.ret1[0] == nil && WR.ret1[0] != nil ==> result == WR.ret1[0] && #SY == 0
+//@   ensures ENC.ret1[0] == nil && WR.ret1[0] == nil ==> result == nil && (#SY == 1 <==> ent.Level > ErrorLevel) && #SY <= 1 && (#SY == 1 ==> SY.recv[0] == c && WR.ts[0] < SY.ts[0])
